@@ -287,6 +287,12 @@ impl PartialEqSpecImpl for ProcessSegmentResult {
 //@ end
 
 
+//@ item sim/elvis-core/src/protocols/tcp/tcb.rs :: const MSL
+//@ rewrite `const MSL: Duration = Duration::from_secs\(1\);` => `exec const MSL: Duration ensures dur_ns(MSL) == 1_000_000_000 { Duration::from_secs(1) }` ## a Verus `const` cannot call an exec fn; declared as an exec const with the value as postcondition
+//@ end
+//@ item sim/elvis-core/src/protocols/tcp/tcb.rs :: const RETRANSMISSION_TIMEOUT
+//@ rewrite `const RETRANSMISSION_TIMEOUT: Duration = Duration::from_millis\(100\);` => `exec const RETRANSMISSION_TIMEOUT: Duration ensures dur_ns(RETRANSMISSION_TIMEOUT) == 100_000_000 { Duration::from_millis(100) }` ## see MSL
+//@ end
 //@ item sim/elvis-core/src/protocols/tcp/tcb.rs :: struct Timeouts strip-attrs
 //@ rewrite `struct Timeouts \{` => `pub struct Timeouts {` ## visibility only
 //@ rewrite `(\n\s*)retransmission: Duration,` => `\1pub retransmission: Duration,` ## visibility only
@@ -312,6 +318,7 @@ pub open spec fn in_win(nxt: u32, wnd: u16, n: u32) -> bool {
 }
 
 /// RFC 9293 Table 6 (segment acceptability), with the revised left edge
+#[verifier::opaque]
 pub open spec fn seq_acceptable(nxt: u32, wnd: u16, data_len: u32, seq: u32, syn: bool, fin: bool) -> bool {
     let seg_len = data_len as int + (if fin { 1int } else { 0 }) + (if syn { 1int } else { 0 });
     if seg_len == 0 {
@@ -350,6 +357,7 @@ impl Transmit {
 }
 
 /// every queued segment carries a well-formed text of at most 65535 octets
+#[verifier::opaque]
 pub open spec fn rtx_wf(q: Seq<Transmit>) -> bool {
     forall|i: int| 0 <= i < q.len() ==> (#[trigger] q[i]).segment.text.wf() && q[i].segment.text@.len() <= 65535
 }
@@ -362,6 +370,40 @@ pub open spec fn fully_acked(t: Transmit, snd_una: u32) -> bool {
     !circ_lt(snd_una, add32(t.segment.header.seq, sseg_len(t.segment) as u32))
 }
 
+/// invariant of the transmission control block
+pub open spec fn tcb_inv(t: Tcb) -> bool {
+    t.rcv.wnd == 65535 && t.incoming.text.wf() && t.incoming.text@.len() <= 65535
+    && rtx_wf(t.outgoing.retransmit@) && t.outgoing.text.wf()
+    // nothing has been acknowledged before the peer's SYN arrives
+    && (t.state == State::SynSent ==> t.snd.una == t.snd.iss)
+}
+
+/// a syntactically valid segment
+pub open spec fn seg_valid(s: Segment) -> bool { s.text.wf() && s.text@.len() <= 65515 && s.header.data_offset == 5 }
+
+/// RFC 9293 Figure 5 (plus Note 2 and the two-step edges a single segment can take):
+/// the state changes a single arriving segment may cause
+pub open spec fn allowed_step(s: State, t: State, c: Control) -> bool {
+    s == t
+    || (s == State::SynSent && t == State::Established && c.ssyn() && c.sack())
+    || (s == State::SynSent && t == State::SynReceived && c.ssyn())
+    || (s == State::SynSent && t == State::CloseWait && c.ssyn() && c.sack() && c.sfin())
+    || (s == State::SynReceived && t == State::Established && c.sack())
+    || (s == State::SynReceived && t == State::CloseWait && c.sfin())
+    || (s == State::Established && t == State::CloseWait && c.sfin())
+    || (s == State::FinWait1 && t == State::FinWait2 && c.sack())
+    || (s == State::FinWait1 && t == State::Closing && c.sfin())
+    || (s == State::FinWait1 && t == State::TimeWait && c.sfin())   // Note 2: our FIN already acknowledged
+    || (s == State::FinWait2 && t == State::TimeWait && c.sfin())
+    || (s == State::Closing && t == State::TimeWait && c.sack())
+}
+
+/// the results after which the caller deletes the TCB
+pub open spec fn deletes_tcb(r: ProcessSegmentResult) -> bool {
+    r == ProcessSegmentResult::ReturnToListen || r == ProcessSegmentResult::ConnectionReset || r == ProcessSegmentResult::ConnectionRefused
+    || r == ProcessSegmentResult::FinalizeClose || r == ProcessSegmentResult::BlindReset
+}
+
 /// the header a builder produces for an empty segment
 pub open spec fn built(h: TcpHeader) -> TcpHeader { TcpHeader { data_offset: 5, checksum: 0, ..h } }
 
@@ -369,6 +411,15 @@ pub open spec fn built(h: TcpHeader) -> TcpHeader { TcpHeader { data_offset: 5, 
 pub open spec fn same_but_queues(a: Tcb, b: Tcb) -> bool {
     a.id == b.id && a.mtu == b.mtu && a.initiation == b.initiation && a.state == b.state && a.snd == b.snd && a.rcv == b.rcv
     && a.incoming == b.incoming && a.timeouts == b.timeouts && a.outgoing.text == b.outgoing.text
+}
+
+/// an acceptable segment with text touches the window with its first octet or with the octet after its text
+/// (this is what the `assert!` in the text branch of process_segment relies on)
+pub proof fn lemma_acceptable_text_in_window(nxt: u32, seq: u32, text_len: u32, fin: bool)
+    requires seq_acceptable(nxt, 65535, text_len, seq, false, fin), 0 < text_len <= 65515,
+    ensures in_win(nxt, 65535, seq) || in_win(nxt, 65535, seq.wrapping_add(text_len)),
+{
+    reveal(seq_acceptable);
 }
 
 impl Tcb {
@@ -380,9 +431,12 @@ impl Tcb {
 
 //@ item sim/elvis-core/src/protocols/tcp/tcb.rs :: impl Tcb / fn enqueue id=Tcb.enqueue
 //@ rewrite `\[\]\.into_iter\(\)` => `Vec::<u8>::new().into_iter()` ## core::array::IntoIter is outside Verus; an empty Vec iterator is the same empty byte stream for the generic `build`
+//@ start
+        proof { reveal(rtx_wf); }
 //@ contract
     ensures
         same_but_queues(*final(self), *old(self)),   //# touches_only_the_queues [C17,C03]
+        rtx_wf(old(self).outgoing.retransmit@) ==> rtx_wf(final(self).outgoing.retransmit@),
         (header_builder.0.ctl.ssyn() || header_builder.0.ctl.sfin()) ==> (
             final(self).outgoing.oneshot@ == old(self).outgoing.oneshot@
             && final(self).outgoing.retransmit@.len() == old(self).outgoing.retransmit@.len() + 1
@@ -397,6 +451,8 @@ impl Tcb {
 //@ end
 
 //@ item sim/elvis-core/src/protocols/tcp/tcb.rs :: impl Tcb / fn remove_acked_from_retransmission id=Tcb.remove_acked_from_retransmission
+//@ start
+        proof { reveal(rtx_wf); }
 //@ contract
     requires rtx_wf(old(self).outgoing.retransmit@),
     ensures
@@ -429,6 +485,8 @@ impl Tcb {
                 forall|j: int| 0 <= j < old(self).outgoing.retransmit@.len() && !fully_acked(#[trigger] old(self).outgoing.retransmit@[j], snd_una) ==>
                     self.outgoing.retransmit@.contains(old(self).outgoing.retransmit@[j]),
             decreases self.outgoing.retransmit@.len() - i,
+//@ before 1 `let seq = transmit.segment.header.seq;`
+            proof { reveal(rtx_wf); }
 //@ before 1 `self.outgoing.retransmit.remove(i);`
                 let ghost q0 = self.outgoing.retransmit@;
 //@ after 1 `self.outgoing.retransmit.remove(i);`
@@ -473,6 +531,64 @@ impl Tcb {
         forall|k: int| 0 <= k < final(self).outgoing.retransmit@.len() ==> old(self).outgoing.retransmit@.contains(#[trigger] final(self).outgoing.retransmit@[k]),
 //@ end
 
+//@ item sim/elvis-core/src/protocols/tcp/tcb.rs :: impl Tcb / fn process_segment id=Tcb.process_segment
+//@ rewrite `fn process_segment\(` => `#[verifier::spinoff_prover] #[verifier::rlimit(300)] fn process_segment(` ## verifier attributes only (own solver instance, larger resource limit)
+//@ rewrite `text\.slice\(already_received as usize\.\.\(already_received \+ accept\) as usize\);` => `text.slice_inner(SliceRange::from(already_received as usize..(already_received + accept) as usize));` ## Message::slice(impl Into<SliceRange>) is the generic one-line wrapper `self.slice_inner(range.into())`; inlined because generic Into is outside the verified fragment
+//@ rewrite `Some\(MSL \* 2\)` => `Some(vx_dur_mul(MSL, 2))` ## Duration * u32 routed through the contract-carrying wrapper
+//@ rewrite `Some\(2 \* MSL\)` => `Some(vx_dur_mul(MSL, 2))` ## u32 * Duration routed through the contract-carrying wrapper
+//@ before 1 `assert!(`
+                    proof {
+                        if old(self).state != State::SynSent {
+                            lemma_acceptable_text_in_window(self.rcv.nxt, seg.seq, text_len, seg.ctl.sfin());
+                        }
+                    }
+//@ start
+        broadcast use {lemma_with_flag_b, lemma_zero_flags};
+        let ghost seg0 = segment;
+//@ contract
+    requires
+        tcb_inv(*old(self)), seg_valid(segment),
+        // segment_arrives only hands over segments that are not ahead of RCV.NXT (except in SYN-SENT)
+        old(self).state == State::SynSent || !circ_lt(old(self).rcv.nxt, segment.header.seq),
+    ensures
+        !deletes_tcb(r) ==> tcb_inv(*final(self)),   //# invariant_preserved [C17]
+        final(self).id == old(self).id && final(self).mtu == old(self).mtu && final(self).initiation == old(self).initiation
+            && final(self).outgoing.text == old(self).outgoing.text && final(self).snd.nxt == old(self).snd.nxt && final(self).snd.iss == old(self).snd.iss,   //# never_sends_new_data [C17]
+        // (C17) a segment that lies entirely outside the receive window is inert
+        (old(self).state != State::SynSent && old(self).state != State::Closing
+            && !seq_acceptable(old(self).rcv.nxt, old(self).rcv.wnd, segment.text@.len() as u32, segment.header.seq, segment.header.ctl.ssyn(), segment.header.ctl.sfin()))
+            ==> (r == ProcessSegmentResult::DiscardSegment && final(self).state == old(self).state && final(self).rcv == old(self).rcv
+                 && final(self).snd == old(self).snd && final(self).incoming.text@ == old(self).incoming.text@
+                 && final(self).outgoing.retransmit@ == old(self).outgoing.retransmit@ && final(self).timeouts == old(self).timeouts),   //# out_of_window_segment_is_inert [C17]
+        // (C17, C01) while waiting for a SYN, a segment with neither SYN nor RST changes nothing
+        (old(self).state == State::SynSent && !segment.header.ctl.ssyn() && !segment.header.ctl.srst())
+            ==> (final(self).state == State::SynSent && final(self).rcv == old(self).rcv && final(self).incoming.text@ == old(self).incoming.text@),   //# syn_sent_ignores_segments_without_syn_or_rst [C17,C01]
+        // (C03) only transitions of the RFC 9293 state diagram
+        allowed_step(old(self).state, final(self).state, segment.header.ctl),   //# only_rfc9293_transitions [C03]
+        // (C03) the TCB is released only by the final ACK in LAST-ACK or by a reset
+        deletes_tcb(r) ==> (segment.header.ctl.srst() || (old(self).state == State::LastAck && segment.header.ctl.sack())),   //# release_only_by_final_ack_or_reset [C03]
+        // (C01) bytes already buffered for the application are never altered, and the buffer respects the advertised window
+        final(self).incoming.text@.len() >= old(self).incoming.text@.len() && final(self).incoming.text@.subrange(0, old(self).incoming.text@.len() as int) == old(self).incoming.text@,   //# buffered_bytes_untouched [C01]
+        // (C01) what is appended is exactly the part of the segment text that continues the stream at RCV.NXT,
+        //       and RCV.NXT advances by exactly that many octets (plus one for a consumed FIN)
+        old(self).state != State::SynSent ==> ({
+            let a = final(self).incoming.text@.len() - old(self).incoming.text@.len();
+            let k = cdist(segment.header.seq, old(self).rcv.nxt);
+            &&& (a > 0 ==> k + a <= segment.text@.len() && final(self).incoming.text@.subrange(old(self).incoming.text@.len() as int, old(self).incoming.text@.len() + a) == segment.text@.subrange(k, k + a))
+            &&& (final(self).rcv.nxt == add32(old(self).rcv.nxt, a as u32)
+                 || (segment.header.ctl.sfin() && final(self).rcv.nxt == add32(old(self).rcv.nxt, (a + 1) as u32)))
+            &&& final(self).rcv.irs == old(self).rcv.irs
+        }),   //# appended_bytes_continue_the_stream [C01]
+        // (C01, C03) RFC 9293 3.10.7.4 seventh: in ESTABLISHED / FIN-WAIT-1 / FIN-WAIT-2 acceptable text is taken, as far as the buffer has room
+        ((old(self).state == State::Established || old(self).state == State::FinWait1 || old(self).state == State::FinWait2)
+            && r == ProcessSegmentResult::Success && !segment.header.ctl.ssyn() && !segment.header.ctl.srst()
+            && seq_acceptable(old(self).rcv.nxt, old(self).rcv.wnd, segment.text@.len() as u32, segment.header.seq, false, segment.header.ctl.sfin())
+            && cdist(segment.header.seq, old(self).rcv.nxt) <= segment.text@.len())
+            ==> final(self).incoming.text@.len() - old(self).incoming.text@.len() == vstd::math::min(segment.text@.len() - cdist(segment.header.seq, old(self).rcv.nxt), 65535 - old(self).incoming.text@.len()),   //# acceptable_text_is_delivered [C01,C03]
+        // (C17) the send window only ever takes the value the peer advertised; SND.UNA never passes SND.NXT by this call
+        final(self).snd.wnd == old(self).snd.wnd || final(self).snd.wnd == segment.header.wnd,   //# window_from_peer_only [C17]
+//@ end
+
 //@ item sim/elvis-core/src/protocols/tcp/tcb.rs :: impl Tcb / fn is_in_rcv_window id=Tcb.is_in_rcv_window
 //@ contract
     ensures r == in_win(self.rcv.nxt, self.rcv.wnd, n),   //# window_with_left_slack [C17,C01]
@@ -482,6 +598,8 @@ impl Tcb {
 //@ contract
     requires data_len <= 65535,
     ensures r == seq_acceptable(self.rcv.nxt, self.rcv.wnd, data_len, seq, syn, fin),   //# rfc9293_table6 [C17,C01]
+//@ start
+        proof { reveal(seq_acceptable); }
 //@ end
 
 //@ item sim/elvis-core/src/protocols/tcp/tcb.rs :: impl Tcb / fn is_fin_acked id=Tcb.is_fin_acked
